@@ -79,7 +79,7 @@ def check_table(res, repo):
             res.errors.append(f"_build_indicator no longer contains `{need}` (reader of the table changed; re-derive the rule)")
 
 
-def check_binding(res, repo):
+def check_binding(res, repo, prop="C08"):
     rule = "R-BIND"
     vi = repo.method("hexital.core.hexital", "Hexital", "_validate_indicators")
     fn = vi.node
@@ -89,7 +89,7 @@ def check_binding(res, repo):
         if any(isinstance(s, ast.Assign) and "candle_manager" in ast.unparse(s.targets[0]) for s in ast.walk(lp)):
             bind_loop = lp
     if bind_loop is None:
-        res.fail(rule, finding("C08", rule, vi, fn, "no loop assigns candle managers to the indicators any more", construct="_validate_indicators: binding loop"))
+        res.fail(rule, finding(prop, rule, vi, fn, "no loop assigns candle managers to the indicators any more", construct="_validate_indicators: binding loop"))
         return
     lv = ast.unparse(bind_loop.target)
     # every path through the loop body assigns <lv>.candle_manager
@@ -100,10 +100,10 @@ def check_binding(res, repo):
         if assigned:
             res.ok(rule, {"site": vi.where, "why": "path assigns the indicator a manager"})
         else:
-            res.fail(rule, finding("C08", rule, vi, bind_loop, "a path through the binding loop leaves an indicator without the Hexital's manager", construct="binding loop path without assignment"))
+            res.fail(rule, finding(prop, rule, vi, bind_loop, "a path through the binding loop leaves an indicator without the Hexital's manager", construct="binding loop path without assignment"))
     ctor = [c for c in calls_in(bind_loop) if call_name(c) == "CandleManager"]
     if len(ctor) != 1:
-        res.fail(rule, finding("C08", rule, vi, bind_loop, "the binding loop must create a missing timeframe manager with one CandleManager(...) call", construct="binding loop: CandleManager(...)"))
+        res.fail(rule, finding(prop, rule, vi, bind_loop, "the binding loop must create a missing timeframe manager with one CandleManager(...) call", construct="binding loop: CandleManager(...)"))
         return
     c = ctor[0]
     first = c.args[0] if c.args else next((k.value for k in c.keywords if k.arg == "candles"), None)
@@ -112,23 +112,23 @@ def check_binding(res, repo):
     if has_dc and "DEFAULT_CANDLES" in ast.unparse(first):
         res.ok("R-ALIAS", {"site": f"{vi.where} {norm_construct(first)}", "why": "each new timeframe manager gets its own deep copy of the base candles"}, nontrivial="validate:deepcopy")
     else:
-        res.fail("R-ALIAS", finding("C08", "R-ALIAS", vi, first if first is not None else c, "a new timeframe manager must be built from a deep copy of the base candles made for that manager; sharing Candle objects between managers lets one timeframe's collapse rewrite another's candles"))
+        res.fail("R-ALIAS", finding(prop, "R-ALIAS", vi, first if first is not None else c, "a new timeframe manager must be built from a deep copy of the base candles made for that manager; sharing Candle objects between managers lets one timeframe's collapse rewrite another's candles"))
     kws = {k.arg: ast.unparse(k.value) for k in c.keywords}
     want = {"candles_lifespan": "self.candles_lifespan", "timeframe_fill": "self.timeframe_fill", "candlestick_type": "self.candlestick_type"}
     for k, v in want.items():
         if kws.get(k) == v:
             res.ok(rule, {"site": vi.where, "kw": f"{k}={v}"})
         else:
-            res.fail(rule, finding("C08", rule, vi, c, f"a timeframe manager must be created with the Hexital-level {k} ({v})", construct=f"CandleManager kw {k}={kws.get(k)}"))
+            res.fail(rule, finding(prop, rule, vi, c, f"a timeframe manager must be created with the Hexital-level {k} ({v})", construct=f"CandleManager kw {k}={kws.get(k)}"))
     if "timeframe" in kws and kws["timeframe"].startswith(f"{lv}.timeframe"):
         res.ok(rule, {"site": vi.where, "kw": f"timeframe={kws['timeframe']}"})
     else:
-        res.fail(rule, finding("C08", rule, vi, c, "the new manager must collapse to the indicator's timeframe", construct=f"CandleManager kw timeframe={kws.get('timeframe')}"))
+        res.fail(rule, finding(prop, rule, vi, c, "the new manager must collapse to the indicator's timeframe", construct=f"CandleManager kw timeframe={kws.get('timeframe')}"))
     t = ast.unparse(bind_loop)
     if "self._candles[manager.name] = manager" in t.replace("'", '"') and f"self._candles[{lv}.timeframe]" in t and "self._candles[DEFAULT_CANDLES]" in t:
         res.ok(rule, {"site": vi.where, "why": "managers are registered and looked up by timeframe; indicators without timeframe use the default manager"}, nontrivial="validate:registry")
     else:
-        res.fail(rule, finding("C08", rule, vi, bind_loop, "managers must be registered under their name and looked up by the indicator's timeframe", construct="binding loop: registry"))
+        res.fail(rule, finding(prop, rule, vi, bind_loop, "managers must be registered under their name and looked up by the indicator's timeframe", construct="binding loop: registry"))
     init = repo.method("hexital.core.hexital", "Hexital", "__init__")
     c0 = [c for c in calls_in(init.node) if call_name(c) == "CandleManager"]
     if len(c0) == 1:
@@ -137,7 +137,7 @@ def check_binding(res, repo):
         if all(k0.get(k) == v for k, v in want0.items()):
             res.ok(rule, {"site": init.where, "why": "default manager built with the Hexital-level settings"})
         else:
-            res.fail(rule, finding("C08", rule, init, c0[0], "the default manager must be built with the Hexital-level lifespan/timeframe/fill/candlestick type"))
+            res.fail(rule, finding(prop, rule, init, c0[0], "the default manager must be built with the Hexital-level lifespan/timeframe/fill/candlestick type"))
     else:
         res.errors.append("Hexital.__init__ no longer creates exactly one CandleManager")
 
